@@ -113,7 +113,7 @@ class Closure:
         return _Subst(self, at, depth).visit(_copy(node))
 
     def text(self, node, at, depth=6):
-        return norm_text(self.expr(node, at, depth))
+        return norm_text(strip_array_wrappers(self.expr(node, at, depth)))
 
 
 def _copy(node):
@@ -170,3 +170,27 @@ def const_arms(root, values):
             positive = pol if eq else not pol
             out.setdefault(t.comparators[0].value, n.body if positive else n.orelse)
     return out
+
+
+class _StripWrappers(ast.NodeTransformer):
+    """np.asarray(X) / np.array(X) / X.values / X.to_numpy() -> X: the same element values"""
+
+    def visit_Call(self, n):
+        self.generic_visit(n)
+        if norm_text(n.func) in ('np.asarray', 'np.array', 'numpy.asarray', 'numpy.array',
+                                 'np.asanyarray') and len(n.args) == 1 and not n.keywords:
+            return n.args[0]
+        if isinstance(n.func, ast.Attribute) and n.func.attr == 'to_numpy' and not n.args:
+            return n.func.value
+        return n
+
+    def visit_Attribute(self, n):
+        self.generic_visit(n)
+        if n.attr == 'values' and isinstance(n.ctx, ast.Load):
+            return n.value
+        return n
+
+
+def strip_array_wrappers(node):
+    import copy
+    return _StripWrappers().visit(copy.deepcopy(node))
